@@ -31,6 +31,7 @@ import queue as _queue
 import sys
 import threading
 import traceback
+import weakref
 
 from . import sched as _sched
 from .sched import S
@@ -42,7 +43,7 @@ class World:
         self.s = s
         self.objs = {}          # key -> shared object (pipe cores, queues)
         self.next_key = 0
-        self.handles = []       # live SimConnection handles
+        self.handles = weakref.WeakSet()   # live SimConnection handles (weak: a dropped Connection closes itself)
         self.procs = {}         # ptag -> SimPopen
         self.procobj = {}       # ptag -> process object as seen by current_process()
         self.pipe_capacity = 65536
@@ -99,14 +100,25 @@ class SimConnection:
         self.writable = writable
         self.closed = False
         self.owner = cur_tag()
-        if writable:
-            self.core.writers += 1
-        if readable:
-            self.core.readers += 1
-        w.handles.append(self)
+        if _count:
+            if writable:
+                self.core.writers += 1
+            if readable:
+                self.core.readers += 1
+        w.handles.add(self)
 
     # pickling: the receiving process gets its own handle (a dup of the descriptor)
     def __reduce__(self):
+        popen = multiprocessing.context.get_spawning_popen()
+        if isinstance(popen, SimPopen):
+            # spawning: the descriptor is duplicated for the child when the process is created, i.e. it is open
+            # from now on, although the child's Connection object only comes into being when the child unpickles it
+            if self.writable:
+                self.core.writers += 1
+            if self.readable:
+                self.core.readers += 1
+            popen.inflight.append([self.key, self.readable, self.writable, False])
+            return (_claim_conn, (popen.tag, len(popen.inflight) - 1))
         return (_rebuild_conn, (self.key, self.readable, self.writable))
 
     def _check(self):
@@ -170,8 +182,8 @@ class SimConnection:
         if self.readable:
             self.core.readers -= 1
         try:
-            self._w.handles.remove(self)
-        except (ValueError, AttributeError):
+            self._w.handles.discard(self)
+        except AttributeError:
             pass
 
     def _force_close(self):
@@ -189,10 +201,6 @@ class SimConnection:
             w = self._w
             if not self.closed and w is not None and S() is w.s:
                 self._force_close()
-                try:
-                    w.handles.remove(self)
-                except ValueError:
-                    pass
         except Exception:
             pass
 
@@ -208,6 +216,14 @@ class SimConnection:
 
 def _rebuild_conn(key, readable, writable):
     return SimConnection(key, readable, writable)
+
+
+def _claim_conn(tag, idx):
+    # the child takes over a descriptor that was duplicated for it at spawn time
+    w = world()
+    ent = w.procs[tag].inflight[idx]
+    ent[3] = True
+    return SimConnection(ent[0], ent[1], ent[2], _count=False)
 
 
 def SimPipe(duplex=False):
@@ -434,6 +450,7 @@ class SimPopen:
         self.pid = 40000 + w.nproc
         self.sentinel = 50000 + w.nproc
         self.finalizer = None
+        self.inflight = []      # descriptors duplicated for the child: [key, readable, writable, claimed]
         w.procs[self.tag] = self
         multiprocessing.context.set_spawning_popen(self)
         try:
@@ -486,10 +503,14 @@ class SimPopen:
             for h in list(self._w.handles):
                 if h.owner == self.tag:
                     h._force_close()
-                    try:
-                        self._w.handles.remove(h)
-                    except ValueError:
-                        pass
+            for ent in self.inflight:
+                if not ent[3]:          # never unpickled by the child: the descriptor dies with the process
+                    ent[3] = True
+                    core = self._w.objs[ent[0]]
+                    if ent[2]:
+                        core.writers -= 1
+                    if ent[1]:
+                        core.readers -= 1
 
     def duplicate_for_child(self, fd):
         return fd
